@@ -133,6 +133,32 @@ def stack (t : Transport) (join : JoinFn) (allowedNetworkHosts : Option (List Pa
   | some allowedHosts => redirectResolver (restricted (some allowedHosts) t) join allowRedirects req
   | none => redirectResolver (bare t) join allowRedirects req
 
+/-- The two default resolver stacks a `Context` builds from its settings. -/
+inductive Flavour
+  | sync    -- `Context::resolver()`       ← `build_default_sync_resolver`
+  | async   -- `Context::resolver_async()` ← `build_default_async_resolver`
+  deriving DecidableEq, Repr
+
+/-- The Context's stack constructor as a function of `core.allowed_network_hosts`, per flavour:
+`None` ⇒ `RedirectResolver` directly over the client; `Some l` ⇒ `RedirectResolver` over
+`RestrictedResolver(l)` over the client — for *every* `l`, the empty list included (the code tests
+`if let Some(allowed_hosts) = …`, not the list's length). Both builders are the same text over the
+sync / async client, so both flavours are this one function. -/
+def contextStack (f : Flavour) (t : Transport) (join : JoinFn)
+    (allowedNetworkHosts : Option (List Pattern)) (allowRedirects : Bool) (req : Request) :
+    St × Except Err Response :=
+  match f with
+  | .sync =>
+    match allowedNetworkHosts with
+    | some allowedHosts => redirectResolver (restricted (some allowedHosts) t) join allowRedirects req
+    | none => redirectResolver (bare t) join allowRedirects req
+  | .async =>
+    match allowedNetworkHosts with
+    | some allowedHosts => redirectResolver (restricted (some allowedHosts) t) join allowRedirects req
+    | none => redirectResolver (bare t) join allowRedirects req
+
+def parseFlavour (s : String) : Flavour := if s == "a" then .async else .sync
+
 /-! ### the request sites of sdk/src
 
 Not every HTTP request of the SDK goes through `Context::resolver()`. The sites (inventoried from
@@ -223,7 +249,8 @@ def handle (toks : List String) : String :=
     chainReply (stack c.transport c.join (parseAllow (field rest "allow")) c.redirects c.request)
   | "ctx" :: rest =>
     let c := parseChain rest
-    let r := stack c.transport c.join (parseAllow (field rest "allow")) c.redirects c.request
+    let r := contextStack (parseFlavour (field rest "mode")) c.transport c.join
+      (parseAllow (field rest "allow")) c.redirects c.request
     resultStr r.2 ++ " n=" ++ toString r.1.trace.length
   | "site" :: rest =>
     -- a request issued at a request site under the caller's configuration; the reply names only
